@@ -71,6 +71,11 @@ CHECKS = {
             "Scaled build (maxEntrySize 64 / buffer 6400 substituted in a freshly copied qlogfile.go): every file of 0..5 (quick) / 0..7 (thorough) tail lines over 4 lengths x 5 filler prefixes x 3 gap patterns; every present and absent seek target on a reused reader object; rotated+current pairs at every split. Real build: 1.6 MB / 3.2 MB files with the tail length swept byte by byte so buffer boundaries visit every offset in a line.",
             "the scaled build differs from the shipped source only in one constant; real-constant coverage is the boundary sweep, not all files; lines+newline < maxEntrySize.",
             "DESIGN.md §4 C20", "E1-stateless"),
+    "C15": ("fault_enumeration",
+            "explicit-state BFS over sequences of scripted list-server answers (faults at every body-offset class) on the real DNSFilter refresh paths, plus exhaustive enumeration of list texts through the real parser with a fixed-point oracle",
+            "Sequences of depth 3 (quick) / 4 (thorough) of forced block/allow refreshes x 16 answers (200 L1/L2/same/empty, connection error, 404, 500, 204, 206, body cut before the first byte / mid-line / at a line boundary / after the last line, HTML, NUL on line 1 / line N), scheduled refreshes 25 h / 1 h later x answer pairs, local-file changes and restart, on one HTTP block list, one local-file block list and one HTTP allow list; after every step file bytes, inode, rules_count and CheckHost verdicts of 13 probes are compared with the model and the stored file is re-parsed. Parser: all texts of <=4 (thorough <=6) lines over 14 line kinds x 3 line endings.",
+            "a successful refresh is expected to bring its rules into force (the statement says so only implicitly); unreadable local file is modelled as a directory (harness runs as root).",
+            "DESIGN.md §4 C15", "E3+E1"),
     "C16": ("exploration",
             "bounded exhaustive enumeration of (protocol x configured name x strict x client server name x DoH path x Host/TLS source) against a grammar-level reference",
             "Every combination of 6 protocols, 3 configured server names, strict on/off, ~95 generated client server names and, for DoH, 48 paths with the name taken from TLS state or Host header; safety (ClientID only from a well-formed source, lower-cased; plain/DNSCrypt never), failure on invalid labels, strict rejection and liveness of the well-formed shapes; pre-request hook turns errors into SERVFAIL.",
